@@ -4,8 +4,8 @@ Extraction Language OCaml.
 Extraction "Extract/m_conc.ml"
   Conc.run Conc.trace_of Conc.stale_free Conc.empty_store Conc.upd
   Conc.append_checkpoint_prog Conc.append_event_prog Conc.notes_add_prog
-  Conc.checkpoint_run Conc.commit_prog Conc.rewrite_prog Conc.rmw
-  Conc.as_cp Conc.as_ev Conc.as_notes Conc.as_init Conc.writes_of Conc.log Conc.view Conc.lost
+  Conc.checkpoint_run Conc.checkpoint_run_full Conc.commit_prog Conc.rewrite_prog Conc.rmw
+  Conc.as_cp Conc.as_ev Conc.as_notes Conc.as_init Conc.as_blob Conc.writes_of Conc.log Conc.view Conc.lost
   Conc.ai_dir Conc.storage_file Conc.interleavings
   GenConc.append_checkpoint_locked GenConc.append_event_locked GenConc.notes_add_locked
-  GenConc.post_commit_refresh_locked GenConc.rewrite_errors_swallowed GenConc.max_events.
+  GenConc.post_commit_refresh_locked GenConc.rewrite_errors_swallowed GenConc.max_events GenConc.blob_rewritten_in_place.
